@@ -25,7 +25,11 @@ STUB = [
 ]
 ASSUME = [
     "AES-GCM, ECDSA, ECDH and HKDF of the cryptography library are correct and unforgeable",
-    "thread pre-emption only at seam calls (sleep, Condition.wait, blocking recvfrom); justified in DESIGN.md 3.2",
+    "thread pre-emption at seam calls (sleep, Condition.wait, blocking recvfrom, clock reads, lock acquire/release), at every "
+    "source line of the server's thread-facing functions and at every bytecode instruction of append/_wake (DESIGN.md 3.2, 11.2); "
+    "races inside one statement elsewhere are out of reach",
+    "generated workloads stay within what the sender can transmit, keep the message timeout above the worst round trip and the "
+    "client frame period at or below the server's per-client send period (DESIGN.md 11.2)",
     "one MTU per run for all nodes; clocks have offsets/skew/small forward steps but never run backwards",
 ]
 
@@ -377,6 +381,8 @@ class FragExpiryProbe(Monitor):
                 if fid in after:
                     if len(filled(after[fid])) > len(f0):
                         mon.progress[(cn, fid)] = now
+                elif fid not in before and fid in getattr(conn, "completed_fragments", ()):
+                    pass        # a late copy of a fragment of an already delivered message: ignored, no context existed
                 else:
                     complete = len(f1) >= (c0 or 0)
                     if not complete:
